@@ -8,7 +8,6 @@
 (*         expect  per leaf column, in schema order: path, vals, reps, defs      *)
 (*                 that the harness handed to the writer                         *)
 (*         rows    number of rows written                                        *)
-(*         noBounds paths of the columns written with SkipPageBounds             *)
 (*   WriteError    the writer refused (not judged here)                          *)
 (* Requirement: FileLayout finds no inconsistency, and its decoded streams are   *)
 (* the streams written.                                                          *)
@@ -41,7 +40,7 @@ Step ==
   /\ CASE E.ev = "Init" -> bad' = bad /\ cnt' = [cnt EXCEPT !.traces = @ + 1]
        [] E.ev = "WriteError" -> bad' = bad /\ cnt' = [cnt EXCEPT !.writeErrors = @ + 1]
        [] E.ev = "File" ->
-            LET a == TLCEval(Analyse(E.bytes, E.hints, E.noBounds)) IN
+            LET a == TLCEval(Analyse(E.bytes, E.hints)) IN
             IF Len(a.probs) > 0 THEN Flag("layout:" \o a.probs[1])
             ELSE IF ~StreamsOK(a, E.expect) THEN Flag("streams:" \o FirstBadColumn(a, E.expect))
             ELSE IF FoldLeft(LAMBDA x, y : x + y, 0, a.rows) # E.rows THEN Flag("streams:row-count")
